@@ -14,7 +14,7 @@ SHARD_TIMEOUT = {'quick': 300, 'thorough': 1500}
 CFG = {
     'monitors': ['cascade', 'commit', 'atomic', 'index'],
     'deciding_counters': ['cascade.deletes_judged'],
-    'n': {'quick': 150, 'thorough': 1000},
+    'n': {'quick': 500, 'thorough': 1000},
     'ops': {'quick': 30, 'thorough': 60},
     'seed_objects': 10,
     'weights': {'create': 8, 'set': 6, 'setmany': 2, 'add': 8, 'remove': 4, 'assign': 2, 'clear': 2, 'delete': 22, 'flush': 6, 'commit': 5, 'read': 2, 'coll': 4},
@@ -23,7 +23,7 @@ CFG = {
 
 SMALL = {
     'templates': ['mixed_cascade', 'o2m_req', 'o2m_req_nocascade', 'o2o_req_cascade', 'self', 'pkref'],
-    'budget': {'quick': 9000, 'thorough': 160000},
+    'budget': {'quick': 24000, 'thorough': 160000},
     'monitors': CFG['monitors'],
 }
 
